@@ -26,7 +26,8 @@ def twin(entry, features='fa'):
 
 
 GRAPH_BOUNDS = ("object graphs of N<=3 nodes (N<=2 where every slot target, buffering history, release mask, phantom count and a "
-                "second-round mutation are all symbolic at once), 1 traced slot per node (2 in the thorough tier) plus an untraced owning slot "
+                "second-round mutation are all symbolic at once), symbolic programs of K=3 (thorough: 4 and 5) arbitrary API steps on 3 objects with every "
+                "oracle after every step, 1 traced slot per node (2 in the thorough tier) plus an untraced owning slot "
                 "(thorough), at most two collect-until-quiescent phases per path; phantom strong counts 0..16000 are solver variables")
 OUTSIDE_COMMON = "larger graphs and longer histories than the bounds; the nightly/no-std configuration; allocation failure; OS threads"
 
